@@ -590,6 +590,12 @@ func (b *modelBuilder) walk(blk *ssa.BasicBlock, idx int, s *mstate, pre bool) {
 					if cv, ok := b.evalConstIn(s, fr, rv); ok {
 						s.env[target] = cv
 					}
+					// the verdict of a policy callback handed back by a predicate helper
+					if e, ok := s.checkRes[strip(unspill(rv))]; ok {
+						s.checkRes[target] = e
+					} else if e, ok := s.checkRes[rv]; ok {
+						s.checkRes[target] = e
+					}
 					// nil / non-nil of a returned error (or pointer) is carried to the caller's view of the result
 					if s.nilness == nil {
 						s.nilness = map[ssa.Value]bool{}
@@ -960,6 +966,12 @@ func (b *modelBuilder) interesting(f *ssa.Function, seen map[*ssa.Function]bool)
 		case *ssa.Go:
 			res = true
 		case ssa.CallInstruction:
+			if x.Common().StaticCallee() == nil && !x.Common().IsInvoke() {
+				if _, isCb := b.cbFieldOf(x.Common().Value); isCb {
+					res = true // a policy callback of the Gateway is consulted in this helper
+					return
+				}
+			}
 			n := calleeName(x)
 			if strings.HasPrefix(n, "net.Dial") || strings.Contains(n, "protocol.Tunnel).Write") || strings.Contains(n, "transport.") {
 				res = true
